@@ -316,6 +316,7 @@ func caseRead(r *mon.Rec, idx int, gray bool) {
 		err error
 	}
 	var gots []got
+	var addrs []net.Addr // the addresses as returned: read again after all later reads (the caller keeps them)
 	pan, val, st := mon.Guard(func() {
 		c := nclient4.NewBroadcastUDPConn(fc, bound)
 		buf := make([]byte, 1500)
@@ -334,11 +335,24 @@ func caseRead(r *mon.Rec, idx int, gray bool) {
 				d.SrcPort = -1
 			}
 			gots = append(gots, got{d: d})
+			addrs = append(addrs, addr)
 		}
 	})
 	if pan {
 		r.Violate("C18:read-panic:"+mon.LibFrame(st), fmt.Sprintf("%v (frame sequence %s)", val, kinds), rp)
 		return
+	}
+	for i, a := range addrs {
+		var late [4]byte
+		port := -1
+		if ua, ok := a.(*net.UDPAddr); ok {
+			copy(late[:], ua.IP.To4())
+			port = ua.Port
+		}
+		if late != gots[i].d.Src || port != gots[i].d.SrcPort {
+			r.Violate("C18:read-source-overwritten", fmt.Sprintf("the source address returned with datagram #%d read %v:%d when it was returned and %v:%d after the later reads (sequence %s)", i, gots[i].d.Src, gots[i].d.SrcPort, late, port, kinds), rp)
+			return
+		}
 	}
 	if gray {
 		r.Count("gray_sequences", 1)
